@@ -17,7 +17,7 @@ ASSUMPTIONS = ['correlations are compared at 1e-9 (5e-5 for float32 input); ever
 
 
 def budget(tier):
-    return {'quick': 200, 'thorough': 4000}[tier]
+    return {'quick': 480, 'thorough': 6000}[tier]
 
 
 @st.composite
